@@ -7,7 +7,7 @@ import verif
 
 
 def run(rep):
-    st = verif.proof_stage(rep, "C12", needs_translators=["gentables"])
+    st = verif.proof_stage(rep, "C12", needs_translators=["gentables", "sharedgen"])
     broken = list(st["broken"])
     for what, detail in lexcommon.build_lexer_sides():
         broken.append({"obligation": "build:" + what, "detail": detail})
